@@ -42,23 +42,51 @@ LEVEL_TEXT = ("Lean theorems (symmetry, iff with intersection length >= threshol
               "exact for the default threshold and exact outside an explicit band for every threshold.  Every modelled "
               "function is re-derived from the source on each run by path-exhaustive symbolic tracing and proved equal to "
               "the model for all inputs, in exact arithmetic and operation by operation in the rounding arithmetic, "
-              "and run differentially on exhaustive dyadic grids (exact) and on arbitrary floats (bit for bit).")
+              "and run differentially on exhaustive dyadic grids (exact) and on arbitrary floats (bit for bit).  How the "
+              "arguments of a call reach the parameters (positional / keyword / explicit None, against parameter tables "
+              "re-read from the signatures) and histories of calls in one process on objects that are changed in between "
+              "are part of the model: every way of writing a call gives the same answer, and every call of a history "
+              "answers as the base predicate on the content the objects carry at that moment (C12_call_forms, "
+              "C12_bind_*, C12_session_*); both are run differentially on live objects.")
 LEVEL_NOTE = ("Trusted: Lean kernel, symbolic tracer (stubs for geometry_to_shapely / compute_bounds / Clip), shapely "
-              "bounds, `rnd64` = binary64 round-to-nearest-even (compared with CPython on every run).  Unmodelled: "
-              "overflow / underflow / inf / nan of binary64.")
+              "bounds, `rnd64` = binary64 round-to-nearest-even (compared with CPython on every run).  Histories: the "
+              "model has no state by construction (C12_session_reads_transparent); that the *code* has none is validated "
+              "by enumerated and random histories (every geometry type x every way of changing an object x every first "
+              "use), not proved.  Unmodelled: overflow / underflow / inf / nan of binary64; threads.")
 TECHNIQUE = ("Lean 4 proof over model; symbolic-trace equality obligations regenerated from source (exact and "
              "rounding arithmetic); exhaustive-grid and bit-exact float correspondence")
 RULE = ("exhaustive grids of interval end points x threshold settings, random dyadic intervals, geometry pairs of "
-        "all 81 type combinations on boundary placements, clip/geometry placements, arbitrary binary64 inputs; "
-        "non-trivial = the implementation returned a boolean (not an error); distinct = distinct (operation, input)")
+        "all 81 type combinations on boundary placements (enumerated on either axis), clip/geometry placements, "
+        "arbitrary binary64 inputs incl. offsets of a relative 1e-6 .. 1e-12 on both sides of every comparison at "
+        "magnitudes 1e-3 .. 1e6 and the lattice k/100; every way of writing a call (positional / mixed / keywords in "
+        "both orders / explicit None) x every container (tuple, list, ndarray, namedtuple) and number type (int, "
+        "float, numpy float64 / float32 / int64, Fraction, bool thresholds); every construction path of geometries "
+        "and clips (constructor, geometry_validate dict / json / attributes, model_validate(_json), copies, dump round "
+        "trip, subclass); geometries of 17 / 257 / 1025 vertices or parts with the extremes anywhere in the list; "
+        "histories in one process (op `session`): objects used, then changed (assignment, model_copy(update=...) "
+        "shallow / deep, copy + assignment, in-place list edit, raw tuples / ints) or derived into a second object, "
+        "then used again; clips changed under the same uuid; the same objects asked with one option after another; "
+        "arguments snapshotted around every call; the replay of a failing history is the whole sequence; "
+        "non-trivial = the implementation returned a boolean (not an error) (sessions: at least one call answered); "
+        "distinct = distinct (operation, input)")
 TRUSTED = ["shapely `bounds` (min/max over the converted coordinates) inside compute_bounds",
            "symbolic tracer stubs: geometry_to_shapely (or compute_bounds) replaced by a symbolic 4-tuple, Clip by a "
            "record of two symbols",
-           "`SE.Affinity.rnd64` is binary64 round-to-nearest-even (monitored against float(Fraction) every run)"]
+           "`SE.Affinity.rnd64` is binary64 round-to-nearest-even (monitored against float(Fraction) every run)",
+           "the session driver harness/c12_session.py (the content a slot carries is the JSON of the step that wrote "
+           "it, never read back from the object; pydantic's model_copy / copy semantics produce the object)",
+           "Python's own binding of positional and keyword arguments (`bindCall` is its model for the optional "
+           "parameters; the parameter tables are re-read from inspect.signature on every run)"]
 ASSUMPTIONS = ["binary64 arithmetic is exact on the dyadic grids used (sums/products of <= 20-bit dyadics); "
                "justified by C12_float_exact_on_grid",
                "no overflow / underflow / inf / nan in the float runs (magnitudes 1e-3 .. 1e7)"]
-NOT_COMPARED = ["error messages (only the error class)", "non-finite floats"]
+NOT_COMPARED = ["error messages (only the error class)", "non-finite floats",
+                "objects that merely look like a Clip / a geometry (duck typing: the functions are annotated with the data "
+                "classes; subclasses of them are exercised)",
+                "the value returned by compute_bounds in a history (C05's subject; here it only makes history)",
+                "calls Python itself rejects (too many positional values, unknown keywords): modelled as TypeError, not run",
+                "geometries sharing one coordinate list object (aliasing between two live objects is Python's, not the "
+                "library's, semantics)"]
 
 U53 = "1/9007199254740992"     # unit round-off of binary64
 
@@ -80,6 +108,13 @@ def _num(s, how):
         return np.float64(float(q))
     if how == "frac":
         return q
+    if how == "f32":
+        import numpy as np
+        return np.float32(float(q))
+    if how == "i64":
+        import numpy as np
+        assert q.denominator == 1
+        return np.int64(int(q))
     return float(q)
 
 
@@ -91,36 +126,49 @@ def _public(name):
     return fn if fn is not None else getattr(ops, name)
 
 
-def _twice(call):
-    """the predicates are functions of their arguments: two calls on the same objects must agree"""
+def _twice(call, snap=None):
+    """the predicates are functions of their arguments: two calls on the same objects must agree, and the
+    arguments must be after the calls what they were before (`snap`: a comparable snapshot of them)"""
+    s0 = snap() if snap is not None else None
     r1 = bool(call())
     r2 = bool(call())
+    out = {"val": r1}
     if r1 != r2:
-        return {"val": r1, "second_call": r2}
-    return {"val": r1}
+        out["second_call"] = r2
+    if snap is not None:
+        s1 = snap()
+        if len(s0) != len(s1) or not all(S._same(x, y) for x, y in zip(s0, s1)):
+            out["argument_mutated"] = True
+    return out
 
 
 def _impl_intervals(inp):
     fn = _public("intervals_overlap")
     how = inp.get("as")
-    conv = "int" if how == "int" else "np" if how == "np" else "frac" if how == "frac" else "float"
+    conv = how if how in ("int", "np", "frac", "f32", "i64") else "float"
     box = inp.get("box") or ("list" if how == "list" else "tuple")
     i1 = S._box([_num(x, conv) for x in inp["i1"]], box)
     i2 = S._box([_num(x, conv) for x in inp["i2"]], box)
+    import copy
+
+    def snap():
+        return [copy.copy(i1), copy.copy(i2)]
     if inp.get("call") is not None:          # the optional arguments exactly as the call writes them
         pos, kw = _call_args(inp["call"], lambda v: _num(v, conv))
-        return _twice(lambda: fn(i1, i2, *pos, **kw))
+        return _twice(lambda: fn(i1, i2, *pos, **kw), snap)
     a, r = _num(inp["abs"], conv), _num(inp["rel"], conv)
+    if inp.get("thr_as") == "bool":
+        a, r = (None if a is None else bool(a)), (None if r is None else bool(r))
     if how == "pos":
         if r is None:
-            return _twice(lambda: fn(i1, i2, a))
-        return _twice(lambda: fn(i1, i2, a, r))
+            return _twice(lambda: fn(i1, i2, a), snap)
+        return _twice(lambda: fn(i1, i2, a, r), snap)
     kw = {}
     if a is not None or inp.get("explicit_none"):
         kw["min_absolute_overlap"] = a
     if r is not None or inp.get("explicit_none"):
         kw["min_relative_overlap"] = r
-    return _twice(lambda: fn(i1, i2, **kw))
+    return _twice(lambda: fn(i1, i2, **kw), snap)
 
 
 def _call_args(call, conv):
@@ -135,18 +183,21 @@ def _impl_geom(which):
         g2 = S.build_geom(inp["g2"], inp.get("build2", "validate"))
         if inp.get("same_object"):
             g2 = g1
+
+        def snap():
+            return [S._snap_geom(g1), S._snap_geom(g2)]
         if inp.get("call") is not None:
             pos, kw = _call_args(inp["call"], _f)
-            return _twice(lambda: fn(g1, g2, *pos, **kw))
+            return _twice(lambda: fn(g1, g2, *pos, **kw), snap)
         a, r = _f(inp["abs"]), _f(inp["rel"])
         if inp.get("as") == "pos":
-            return _twice(lambda: fn(g1, g2, a, r))
+            return _twice(lambda: fn(g1, g2, a, r), snap)
         kw = {}
         if a is not None:
             kw["min_absolute_overlap"] = a
         if r is not None:
             kw["min_relative_overlap"] = r
-        return _twice(lambda: fn(g1, g2, **kw))
+        return _twice(lambda: fn(g1, g2, **kw), snap)
     return impl
 
 
@@ -170,15 +221,18 @@ def _impl_in_clip(inp):
     else:
         clip = data.Clip(recording=_recording(), start_time=_f(inp["start"]), end_time=_f(inp["end"]))
     g = S.build_geom(inp["g"], inp.get("build", "validate"))
+
+    def snap():
+        return [S._snap_geom(g), S._snap_clip(clip)]
     if inp.get("call") is not None:
         pos, kw = _call_args(inp["call"], _f)
-        return _twice(lambda: fn(g, clip, *pos, **kw))
+        return _twice(lambda: fn(g, clip, *pos, **kw), snap)
     if inp.get("min") is None:
-        return _twice(lambda: fn(g, clip))                      # the default of the code
+        return _twice(lambda: fn(g, clip), snap)                # the default of the code
     m = _num(inp["min"], "int" if inp.get("as") == "int" else "float")
     if inp.get("as") == "pos":
-        return _twice(lambda: fn(g, clip, m))
-    return _twice(lambda: fn(g, clip, minimum_overlap=m))
+        return _twice(lambda: fn(g, clip, m), snap)
+    return _twice(lambda: fn(g, clip, minimum_overlap=m), snap)
 
 
 # ---------------------------------------------------------------- binary64: monitor of the property on floats
@@ -520,12 +574,20 @@ def _typed_interval_cases():
            (None, "-1"), (None, "2"), ("0", "0"), ("1", "1"), ("0", "1"), ("1", "0")]
     for s1, e1, s2, e2 in itertools.product(vals, repeat=4):
         for a, r in thr:
-            for how in ("int", "np", "frac", "list", "pos"):
+            for how in ("int", "np", "frac", "list", "pos", "f32", "i64"):
                 if how == "pos" and a is None and r is None:
                     continue
                 yield {"i1": [s1, e1], "i2": [s2, e2], "abs": a, "rel": r, "as": how}
             if a is None or r is None:
                 yield {"i1": [s1, e1], "i2": [s2, e2], "abs": a, "rel": r, "explicit_none": True}
+
+
+def _bool_threshold_cases():
+    """True / False where a number is expected (accepted today: they are the integers 1 / 0)"""
+    vals = [str(i) for i in range(4)]
+    for s1, e1, s2, e2 in itertools.product(vals, repeat=4):
+        for a, r in [("0", None), ("1", None), (None, "0"), (None, "1"), ("0", "1")]:
+            yield {"i1": [s1, e1], "i2": [s2, e2], "abs": a, "rel": r, "thr_as": "bool"}
 
 
 def _random_interval_cases(rng, n):
@@ -740,7 +802,7 @@ def _construction_clip_cases(rng):
     places = [(0, 1), (0, "3/2"), ("5/4", "7/4"), (2, 3), ("3/2", "3/2")]
     for t in gen_geom.TYPES:
         for how in S.GEOM_BUILDS:
-            for ch in ("new", "same_uuid", "validate", "json"):
+            for ch in ("new", "same_uuid", "validate", "json", "subclass"):
                 s, e = rng.choice(places)
                 g = geom_with_extent(t, s, e, 1, 2)
                 if g is None:
@@ -786,21 +848,22 @@ def big_geometry(ty, n, where, s=1, e=3, lo=1, hi=3):
     return None
 
 
-def _big_cases(sizes):
-    """the four extremes of a large geometry are each the only thing a reference geometry / a clip reaches"""
+def _big_cases(plan):
+    """the four extremes of a large geometry are each the only thing a reference geometry / a clip reaches;
+    `plan`: (number of vertices, positions of the extremes in the vertex list)"""
     d8 = Fraction(1, 8)
     for ty in BIG_TYPES:
-        for n in sizes:
-            for where in (1, n // 2, n):
+        for n, wheres in plan:
+            for k, where in enumerate(wheres):
                 g = big_geometry(ty, n, where)
-                refs_t = [geom_with_extent("TimeInterval", 0, 1 + d8, 0, 1), geom_with_extent("TimeInterval", 3 - d8, 4, 0, 1)]
-                refs_f = [geom_with_extent("BoundingBox", 0, 4, 0, 1 + d8), geom_with_extent("BoundingBox", 0, 4, 3 - d8, 4)]
-                for ref in refs_t:
-                    yield "temporal", {"g1": g, "g2": ref, "abs": None, "rel": None}
-                    yield "temporal", {"g1": ref, "g2": g, "abs": "1/8", "rel": None}
-                for ref in refs_f:
-                    yield "frequency", {"g1": ref, "g2": g, "abs": None, "rel": None}
-                    yield "frequency", {"g1": g, "g2": ref, "abs": None, "rel": "1"}
+                early, late = geom_with_extent("TimeInterval", 0, 1 + d8, 0, 1), geom_with_extent("TimeInterval", 3 - d8, 4, 0, 1)
+                low, high = geom_with_extent("BoundingBox", 0, 4, 0, 1 + d8), geom_with_extent("BoundingBox", 0, 4, 3 - d8, 4)
+                if k % 2:
+                    early, late, low, high = late, early, high, low
+                yield "temporal", {"g1": g, "g2": early, "abs": None, "rel": None}
+                yield "temporal", {"g1": late, "g2": g, "abs": "1/8", "rel": None}
+                yield "frequency", {"g1": low, "g2": g, "abs": None, "rel": None}
+                yield "frequency", {"g1": g, "g2": high, "abs": None, "rel": "1"}
                 yield "is_in_clip", {"g": g, "start": "0", "end": rat(1 + d8), "min": None}
                 yield "is_in_clip", {"g": g, "start": rat(3 - d8), "end": "4", "min": "1/16"}
 
@@ -993,7 +1056,9 @@ def _stage_construction(ctx):
     ctx.exhaustive["construction paths"] = (f"9 types x {len(S.GEOM_BUILDS)} construction paths x 4 placements x both argument "
                                             "positions; x 4 clip construction paths x 3 number types")
     by_op = {}
-    for opn, c in _big_cases(BIG_SIZES if ctx.thorough() else BIG_SIZES[:2] + [1025][:1]):
+    plan = [(n, (1, n // 2, n // 2 + 1, n)) for n in BIG_SIZES] if ctx.thorough() else \
+        [(17, (1, 8, 17)), (257, (1, 128, 257)), (1025, (512 + ctx.seed % 2, 1025))]
+    for opn, c in _big_cases(plan):
         by_op.setdefault(opn, []).append(c)
     for opn, cs in by_op.items():
         ctx.run_cases(OPS[opn], cs)
@@ -1199,14 +1264,22 @@ def _rnd64_contract(ctx):
 
 
 def run(ctx):
-    ctx.stage("signature-table", _signature_table, ctx)
-    ctx.stage("symbolic-ties", _symbolic_ties, ctx)
-    ctx.stage("discharge", ctx.discharge, ["SoundeventModel.Intervals", "SoundeventModel.Tactics"])
-    ctx.stage("correspondence", _correspondence, ctx)
-    ctx.stage("construction-paths", _stage_construction, ctx)
-    ctx.stage("histories", _stage_histories, ctx)
-    ctx.stage("rnd64-contract", _rnd64_contract, ctx)
-    ctx.stage("binary64", _floats, ctx)
+    import time
+    times = []
+
+    def stage(name, fn, *args):
+        t0 = time.time()
+        ctx.stage(name, fn, *args)
+        times.append(f"{name} {time.time() - t0:.1f}s")
+    stage("signature-table", _signature_table, ctx)
+    stage("symbolic-ties", _symbolic_ties, ctx)
+    stage("discharge", ctx.discharge, ["SoundeventModel.Intervals", "SoundeventModel.Tactics"])
+    stage("correspondence", _correspondence, ctx)
+    stage("construction-paths", _stage_construction, ctx)
+    stage("histories", _stage_histories, ctx)
+    stage("rnd64-contract", _rnd64_contract, ctx)
+    stage("binary64", _floats, ctx)
+    ctx.note("stage wall times: " + ", ".join(times))
 
 
 def _correspondence(ctx):
@@ -1215,8 +1288,10 @@ def _correspondence(ctx):
     ctx.run_cases(OPS["intervals_overlap"], _grid_interval_cases(den))
     ctx.exhaustive["intervals_overlap grid"] = f"end points i/{den}, i=0..{2 * den}, all 4-tuples x {len(THRESHOLDS)} threshold settings"
     ctx.run_cases(OPS["intervals_overlap"], _typed_interval_cases())
+    ctx.run_cases(OPS["intervals_overlap"], _bool_threshold_cases())
     ctx.exhaustive["intervals_overlap argument types"] = ("end points 0..3, all 4-tuples x 13 threshold settings x "
-                                                          "{int, numpy.float64, Fraction, list intervals, positional, explicit None}")
+                                                          "{int, numpy.float64 / float32 / int64, Fraction, list intervals, positional, explicit None}; "
+                                                          "booleans as thresholds")
     ctx.run_cases(OPS["intervals_overlap"], _random_interval_cases(ctx.rng, ctx.budget(4000, 60000)))
     pairs = list(_geom_pair_cases(ctx.rng, ctx.budget(3, 40)))
     pairs += list(_geom_boundary_cases(ctx.rng, ctx.budget(2, 6)))
@@ -1268,3 +1343,11 @@ def search(ctx, failures):
     _run_float(ctx, OPS["temporal_f64"], fp)
     _run_float(ctx, OPS["frequency_f64"], fp)
     _run_float(ctx, OPS["is_in_clip_f64"], _float_clip_cases(ctx.rng, 6000))
+    # construction paths, sizes, histories, tolerance-sized offsets and lattices, wider than in `run`
+    ctx.run_cases(OPS["session"], _random_sessions(ctx.rng, 1500))
+    by_op = {}
+    for opn, c in _big_cases([(n, (1, n // 2, n // 2 + 1, n)) for n in BIG_SIZES]):
+        by_op.setdefault(opn, []).append(c)
+    for opn, cs in by_op.items():
+        ctx.run_cases(OPS[opn], cs)
+    _boundaries(ctx, 6, 2)
